@@ -20,7 +20,11 @@ G_X = {"group": "g/x", "members": [X, E]}
 G_ALT = {"group": "g/ac", "members": [rs("t/a1", [["string", "a"]], ["'va'"]),
                                       rs("t/c1", [["varint", "n"], ["path", "p"], ["datetime", "ts"]], ["1", "windows_path('C:\\c')", "dt(2020,6,1,12,0,0,5,tz=off(5,30))"])]}
 
-SHAPES = {"A": A, "A2": A2, "C": C, "BIG": BIG, "E": E, "N_A": N_A, "N_X": N_X, "G": G, "G_X": G_X, "G_ALT": G_ALT}
+# a record that cannot be encoded (lone high surrogate): its write raises, the caller skips it and carries on
+F_BAD = dict(rs("t/f", [["string", "s"], ["record", "sub"]], ["chr(0xd800)", X]), xfail=True)
+F_OK = rs("t/f", [["string", "s"], ["record", "sub"]], ["'fine'", X])
+
+SHAPES = {"F_BAD": F_BAD, "F_OK": F_OK, "A": A, "A2": A2, "C": C, "BIG": BIG, "E": E, "N_A": N_A, "N_X": N_X, "G": G, "G_X": G_X, "G_ALT": G_ALT}
 
 
 def small(spec):
@@ -75,7 +79,7 @@ def cases(tier, seed):
     import itertools
 
     for k in range(1, L + 1):
-        pool = names if k <= 2 else (["A", "A2", "C", "N_A", "N_X", "G", "G_X", "G_ALT", "BIG"] if k == 3 else ["A", "A2", "N_X", "G_X", "G", "G_ALT"])
+        pool = names if k <= 2 else (["A", "A2", "C", "N_A", "N_X", "G", "G_X", "G_ALT", "BIG", "F_BAD", "F_OK"] if k == 3 else ["A", "A2", "N_X", "G_X", "G", "G_ALT"])
         for seq in itertools.product(pool, repeat=k):
             yield {"kind": "s4", "t": "seq", "shape": list(seq), "records": [SHAPES[n] for n in seq]}
     # S5 atoms wrapped as record / record[] / grouped member
